@@ -22,16 +22,16 @@ ASSUMPTIONS = ["hand model of hera/debugger/debugger.py and the next/step/contin
 
 def run(ctx):
     thorough, seed = ctx["thorough"], ctx["seed"]
-    total = {"evaluations": 0, "disagreements": [], "violations": [], "streams": {}, "distribution": {}}
+    total = {"evaluations": 0, "disagreements": [], "violations": [], "streams": {}, "distribution": {}, "distinct_nontrivial": 0}
     for name, rr in (("c11", dbgsem.check_c11(seed, 2500 if thorough else 300)),
                      ("dbgmodel", dbgsem.check_model(seed + 1, 1500 if thorough else 150)),
                      ("shape", dbgsem.check_shape(seed + 2, 1500 if thorough else 200))):
         total["evaluations"] += rr["evaluations"]
+        total["distinct_nontrivial"] += rr.get("distinct", 0)
         total["disagreements"] += rr["disagreements"]
         total["violations"] += [v for v in rr["violations"]]
         total["streams"][name] = rr["evaluations"]
         total["distribution"][name] = rr.get("distribution", {})
-    total["distinct_nontrivial"] = total["evaluations"]
     total["rule"] = ("generated terminating programs (calls, loops, data, adjacent identical operations, recursion, wild control flow) "
                      "x random mixtures of next / next n / step / continue x --big-stack, --init, --warn-return-off")
     total["samples"] = [{"text": "BRR(2)\\nBRR(2)\\n...", "cmds": ["next", "step", "continue"]}]
